@@ -327,7 +327,7 @@ def histories(ctx, world, exhaustive2):
         out.append([('r', str(rng.choice(READS))), ('s', a)])
     pairs = list(itertools.product(A, A))
     if not exhaustive2:
-        idx = rng.choice(len(pairs), size=min(len(pairs), ctx.n(70, 400)), replace=False)
+        idx = rng.choice(len(pairs), size=min(len(pairs), ctx.n(90, 400)), replace=False)
         pairs = [pairs[i] for i in idx]
     for a, b in pairs:
         h = []
@@ -338,7 +338,7 @@ def histories(ctx, world, exhaustive2):
             h.append(('r', str(rng.choice(READS))))
         h.append(('s', b))
         out.append(h)
-    for k in range(ctx.n(25, 300)):
+    for k in range(ctx.n(40, 600)):
         h = []
         for j in range(int(rng.integers(3, 9))):
             if rng.random() < 0.35:
